@@ -270,6 +270,22 @@ func checkC05(c *Ctx) {
 			c.bad("OWN-physical-write", key, l.ipos(in), "a physical write is issued inside a logical operation: a stop right after it leaves part of the operation durable")
 		}
 	}
+	// ---- (3a) repeating an interrupted prune relies on "version does not exist" being recognised and skipped
+	c.rule("ERR-E7-sentinel-path", "the 'version does not exist' decisions that let an interrupted prune be repeated can still be taken", 3)
+	{
+		ea := newErrAnalysis(c, l)
+		fns := []*ssa.Function{l.Func("", "*nodeDB.deleteVersion"), l.Func("", "*nodeDB.deleteVersionsTo"), l.Func("", "*nodeDB.traverseOrphansWithRootkeyCache"), l.Func("", "*rootkeyCache.getRootKey")}
+		ea.runE7("ERR-E7-sentinel-path", func(fn *ssa.Function) bool {
+			for f := fn; f != nil; f = f.Parent() {
+				for _, g := range fns {
+					if g != nil && f == g {
+						return true
+					}
+				}
+			}
+			return false
+		})
+	}
 	// ---- (3b) a stop between "save (v,0)" and "delete (v,1)" leaves both keys: the lookup must prefer the original
 	c.rule("ORDER-root-probe", "root lookup probes the original key before the re-keyed (version,0) key", 2)
 	checkRootProbeOrder(c)
